@@ -784,9 +784,17 @@ class LTLayoutContainer(LTContainer[LTComponent]):
         """Group neighboring lines to textboxes"""
         plane: Plane[LTTextLine] = Plane(self.bbox)
         plane.extend(lines)
+        # Plane.find() answers in the order of its grid cells, which depends on
+        # where the page lies on the absolute grid. Take the neighbors in the
+        # order of the lines instead, so that lines with the same top edge do
+        # not change places when the page is moved or scaled.
+        order = {line: i for (i, line) in enumerate(lines)}
         boxes: Dict[LTTextLine, LTTextBox] = {}
         for line in lines:
-            neighbors = line.find_neighbors(plane, laparams.line_margin)
+            neighbors = sorted(
+                line.find_neighbors(plane, laparams.line_margin),
+                key=lambda obj: order[obj],
+            )
             members = [line]
             for obj1 in neighbors:
                 members.append(obj1)
